@@ -99,6 +99,8 @@ func (a sortableNodeArray) Less(i, j int) bool {
 }
 
 func (a sortableNodeArray) compare(lhs *CandidateNode, rhs *CandidateNode, dateTimeLayout string) int {
+	// an alias is ordered as the node it stands for
+	lhs, rhs = lhs.unwrapAlias(), rhs.unwrapAlias()
 	lhsTag := lhs.Tag
 	rhsTag := rhs.Tag
 
